@@ -880,3 +880,14 @@ B('QL-axis-labels-axis1-unconditional', ['C19'], 'quilt.py', 'Quilt._update_axis
 N('QL-single-frame-shortcut-after-test', ['C19'], 'quilt.py', 'Quilt._extract',
   '            else:\n                frames = (extractor(f) for _, f in self._bus.items())\n',
   '            elif len(self._bus) == 1:\n                return extractor(self._bus.iloc[0])\n            else:\n                frames = (extractor(f) for _, f in self._bus.items())\n')
+
+# ---------------------------------------------------------------------------------- Batch sequential / pooled agreement (C18)
+B('PS-apply-items-name-for-label', ['C18'], 'batch.py', 'Batch.apply_items',
+  '                yield frame, func, label\n', '                yield frame, func, frame.name\n', 'I.parallel-sequential-args', 'apply_items')
+B('PS-apply-items-except-swapped', ['C18'], 'batch.py', 'Batch.apply_items_except',
+  '                yield frame, func, label\n', '                yield frame, func, frame\n', 'I.parallel-sequential-args', 'apply_items_except')
+B('PS-apply-attr-args-dropped', ['C18'], 'batch.py', 'Batch._apply_attr',
+  '                yield frame, attr, args, kwargs\n', '                yield frame, attr, (), kwargs\n', 'I.parallel-sequential-args', '_apply_attr')
+N('PS-apply-items-renamed-loop', ['C18'], 'batch.py', 'Batch.apply_items',
+  '            for label, frame in self._items:\n                labels.append(label)\n                yield frame, func, label\n',
+  '            for k, f in self._items:\n                labels.append(k)\n                yield f, func, k\n')
